@@ -55,6 +55,7 @@ type c15Case struct {
 	Stream   string    `json:"stream,omitempty"`
 	Values   []int64   `json:"values,omitempty"` // kind cli: one function per value
 	Rpt      *c15Rpt   `json:"rpt,omitempty"`    // kind rpt: report-level label case
+	Tags     []c15Tag  `json:"tags,omitempty"`   // kind nodelets: numeric tags of one graph node
 }
 
 func c15hex(s string) string { return hex.EncodeToString([]byte(s)) }
@@ -1347,6 +1348,8 @@ func (st *c15State) run(cs c15Case) bool {
 		return st.commonCase(cs)
 	case "rpt":
 		return st.rptCase(cs)
+	case "nodelets":
+		return st.nodeletCase(cs)
 	case "cli":
 		return st.cliReplay(c15CLI{Values: cs.Values, From: cs.From, To: cs.To})
 	case "sp":
@@ -1368,6 +1371,9 @@ func (st *c15State) run(cs c15Case) bool {
 func c15canon(cs c15Case) string {
 	var b strings.Builder
 	fmt.Fprintf(&b, "%s|%d|%d|%s|%s|%s|%v", cs.Kind, cs.V, cs.V2, cs.From, cs.To, c15vtToks(cs.Types), cs.Values)
+	for _, t := range cs.Tags {
+		fmt.Fprintf(&b, "|%d %s %d", t.Value, t.Unit, t.Weight)
+	}
 	if cs.Rpt != nil {
 		fmt.Fprintf(&b, "|%s %v %v %s %v %v %v", cs.Rpt.Mode, cs.Rpt.CLI, cs.Rpt.Reverse, cs.Rpt.RootKey, cs.Rpt.DivideBy, cs.Rpt.DurationNanos, cs.Rpt.NodeFraction)
 		for _, s := range cs.Rpt.Samples {
@@ -1384,7 +1390,7 @@ func c15canon(cs c15Case) string {
 }
 
 func runC15(c *Ctx) {
-	c.Res.Rule = "scale: every spelling (name, UPPER, Title, plural, UPPER plural, mixed case; printed names; unknown/odd strings) of every unit name of the Lean spec dictionary and of the regenerated table × targets (every unit of the family, auto, minimum, other family, unknown, skip words) × int64 strategies (0, ±1, every unit step ±1 for the pair, rounding ties, 2^53±1, MaxInt64, MinInt64(+1), random widths); mono: neighbouring values around unit steps and rounding ties; pct: value/total pairs around 1%, 99.95%, 100.05%, zero total, extremes; common/sp: 1–4 value types / profiles over compatible and incompatible unit spellings; cli: `pprof -top -unit=…` on generated one-function-per-value profiles (printed flat values = ScaledLabel, flat% = Percentage, one output unit for the report); rpt: report-level labels — profiles with 2–4 numeric tag keys whose units belong to different families and whose values coincide, both sample orders, rendered as tags / traces / top / tree / peek / dot in-process (report.Generate) and tags / traces / tree / -tagroot / peek / dot / top through the pprof binary, with -divide_by ∈ {none, 1024, 1000, 0.001, 3, 60, 0.5, 1e6, 2^20, 7} × output unit ∈ {minimum, auto, fixed units of the sample's or a tag's family} (sample-value labels must be admissible labels of the DIVIDED value: the automatic unit suits the value actually printed); every printed label (tag values, tag weights and totals, sample values, flat/cum/edge values, legend total, tagroot frames) is read back and must lie in the family of ITS OWN unit within display rounding, and agree with the model's label. Non-trivial = the source unit is a unit name by the spec, so the conversion mechanism (sniffUnit → convertUnit/autoScale) is reached (scale/mono); total ≠ 0 (pct); ≥2 compatible types (common); at least one column actually rescaled (sp); tag units of ≥ 2 families, or a known sample unit for top/tree (rpt). Distinct by canonical case text."
+	c.Res.Rule = "scale: every spelling (name, UPPER, Title, plural, UPPER plural, mixed case; printed names; unknown/odd strings) of every unit name of the Lean spec dictionary and of the regenerated table × targets (every unit of the family, auto, minimum, other family, unknown, skip words) × int64 strategies (0, ±1, every unit step ±1 for the pair, rounding ties, 2^53±1, MaxInt64, MinInt64(+1), random widths); mono: neighbouring values around unit steps and rounding ties; pct: value/total pairs around 1%, 99.95%, 100.05%, zero total, extremes; common/sp: 1–4 value types / profiles over compatible and incompatible unit spellings; cli: `pprof -top -unit=…` on generated one-function-per-value profiles (printed flat values = ScaledLabel, flat% = Percentage, one output unit for the report); rpt: report-level labels — profiles with 2–4 numeric tag keys whose units belong to different families and whose values coincide, both sample orders, rendered as tags / traces / top / tree / peek / dot in-process (report.Generate) and tags / traces / tree / -tagroot / peek / dot / top through the pprof binary, with -divide_by ∈ {none, 1024, 1000, 0.001, 3, 60, 0.5, 1e6, 2^20, 7} × output unit ∈ {minimum, auto, fixed units of the sample's or a tag's family} (sample-value labels must be admissible labels of the DIVIDED value: the automatic unit suits the value actually printed); every printed label (tag values, tag weights and totals, sample values, flat/cum/edge values, legend total, tagroot frames) is read back and must lie in the family of ITS OWN unit within display rounding, and agree with the model's label. Non-trivial = the source unit is a unit name by the spec, so the conversion mechanism (sniffUnit → convertUnit/autoScale) is reached (scale/mono); total ≠ 0 (pct); ≥2 compatible types (common); at least one column actually rescaled (sp); tag units of ≥ 2 families, or a known sample unit for top/tree (rpt). nodelets: graph.New+ComposeDot on one node with 5–9 numeric tag values in per-value units of one family (collapsed into ranges): every value inside a printed label or range, every end a tag's label. Distinct by canonical case text."
 	st := c15Init(c)
 	if !st.alive {
 		return
